@@ -30,7 +30,7 @@ var def = Label{"NOTE", "v", ""}
 var devTags = []string{"BAPM", "BIRT", "BURI", "DATE", "DEAT", "EVEN", "_FID", "_FSFTID", "FORM", "LATI", "LONG", "MAP",
 	"NAME", "NICK", "FONE", "PLAC", "RESI", "ROMN", "SEX", "SOUR", "TYPE", "_UID", "INDI", "FAM", "OCCU", "HEAD", "TRLR", "CONT",
 	"_X", "X1", "1", "a_b", "note", "ABCDEFGHIJKLMNOPQRSTUVWXYZ01234"}
-var devValues = []string{"", "@I1@", "1 NAME x", "@", "a  b", "10", "@P1@ x", "\xc3\xa9\xff"}
+var devValues = []string{"", "@I1@", "1 NAME x", "@", "a  b", "10", "@P1@ x", "\xc3\xa9\xff", "a@@b", "@@"}
 var devPointers = []string{"P1", "1", "P 1"}
 
 // single-field deviations (used for pairs) and the full deviation alphabet
@@ -145,6 +145,9 @@ func judge(doc *gedcom.Document) (sig, what string) {
 		}
 		return sig, fmt.Sprintf("the decoder does not accept the encoder's text %q: err=%v panic=%q", clip(enc), r.Err, r.PanicMsg)
 	}
+	if sh := gx.Shared(r.Doc.Nodes()); sh != "" {
+		return "node-object-shared", sh
+	}
 	got := gx.Dump(r.Doc.Nodes(), true)
 	if got != src {
 		sig := "tree-differs"
@@ -178,6 +181,7 @@ func clip(s string) string {
 
 func runCase(r *vlib.Rec, k kase) {
 	r.Eval()
+	r.EnterF(func() interface{} { return k })
 	doc, class := buildCase(k)
 	r.Count("route:" + k.Route + ":" + class)
 	if doc == nil {
@@ -326,6 +330,56 @@ func run(tier, unit string, r *vlib.Rec) {
 			}
 			runCase(r, kase{Route: "text", Text: renderText(levels, ls), BOM: idx%2 == 1})
 		}
+	case "empty": // the empty forest and single-node documents of every node kind x HasBOM
+		for _, bom := range []bool{false, true} {
+			r.Count("empty-forest")
+			runCase(r, kase{Route: "api", BOM: bom})
+			for _, t := range devTags {
+				runCase(r, kase{Route: "api", Levels: []int{0}, Labels: []Label{{t, "", ""}}, BOM: bom})
+			}
+		}
+	case "chars": // every printable ASCII character (and a 2-byte rune) at every position of a value, single and doubled; legal ones in tags and pointers
+		for c := lo + 0x20; c < hi+0x20; c++ {
+			ch := string(rune(c))
+			if c == 0x7f {
+				ch = "\u00e9"
+			}
+			var vals []string
+			for _, v := range []string{ch, ch + ch, "a" + ch + "b", "a" + ch + ch + "b", ch + "b", "a" + ch, ch + "a" + ch, ch + ch + ch, "@" + ch + "@", "1 " + ch} {
+				if strings.TrimSpace(v) == v {
+					vals = append(vals, v)
+				}
+			}
+			for _, tg := range []string{"NOTE", "NAME", "DATE", "SEX", "_UID", "PLAC"} {
+				for _, v := range vals {
+					for _, shape := range [][]int{{0}, {0, 1}, {0, 1, 1}} {
+						ls := make([]Label, len(shape))
+						for i := range ls {
+							ls[i] = Label{tg, v, ""}
+						}
+						ls[0] = def
+						if len(shape) == 1 {
+							ls[0] = Label{tg, v, ""}
+						}
+						r.Count("chars")
+						runCase(r, kase{Route: "api", Levels: shape, Labels: ls, BOM: false})
+					}
+				}
+			}
+			legalTag := c >= '0' && c <= '9' || c >= 'A' && c <= 'Z' || c >= 'a' && c <= 'z' || c == '_'
+			if legalTag {
+				for _, tg := range []string{ch, ch + ch, "A" + ch, ch + "A", "A" + ch + "B"} {
+					runCase(r, kase{Route: "api", Levels: []int{0, 1}, Labels: []Label{def, {tg, "v", ""}}, BOM: false})
+					runCase(r, kase{Route: "api", Levels: []int{0}, Labels: []Label{{tg, "", ""}}, BOM: true})
+				}
+			}
+			if c != '@' && c != ' ' {
+				for _, ptr := range []string{ch, ch + ch, "A" + ch, ch + "A", "A" + ch + "1"} {
+					runCase(r, kase{Route: "api", Levels: []int{0, 1}, Labels: []Label{{"INDI", "", ptr}, {"NOTE", "v", ptr}}, BOM: false})
+					runCase(r, kase{Route: "api", Levels: []int{0}, Labels: []Label{{"NOTE", "@" + ptr + "@", ptr}}, BOM: false})
+				}
+			}
+		}
 	case "depth":
 		for d := lo; d < hi; d++ {
 			for dd := 0; dd <= int(d); dd++ {
@@ -357,6 +411,8 @@ func plan(tier string) []string {
 		out = append(out, vlib.Chunks(fmt.Sprintf("text:%d", n), int64(len(gen.AllForests(n)))*gen.Pow(len(textLabels), n), 20000)...)
 	}
 	out = append(out, vlib.Chunks("depth", 100, 10)...)
+	out = append(out, "empty:0:1")
+	out = append(out, vlib.Chunks("chars", 0x60, 8)...)
 	return out
 }
 
@@ -390,7 +446,7 @@ func main() {
 		Run:    run,
 		Replay: replay,
 		Required: func(string) []string {
-			req := []string{"route:api:built", "route:text:built", "route:depth:built", "depth>=10", "pairs"}
+			req := []string{"route:api:built", "route:text:built", "route:depth:built", "depth>=10", "pairs", "chars", "empty-forest"}
 			for _, t := range devTags {
 				req = append(req, "tag:"+t)
 			}
